@@ -121,8 +121,11 @@ FamR(tmpls, rootreqs, pkgreqs, a1reqs, a2reqs) ==
 \*    level (a sibling entry / interface of the same file, or a level above).  Closed schema, nothing required, so
 \*    the type is the only thing that can be wrong.
 \*    pair = <<key, conforming kind, violating look-alike kind>>
-LookPairs(t) == {<<"kb", "bool", "strT">>, <<"ks", "strT", "bool">>, <<"ks", "str1", "int">>}
-                \cup (IF t \in {"testify", "matryer"} THEN {} ELSE {<<"ki", "int", "str1">>})
+\*    ... and the JSON null in place of the look-alike: `key: null` / `key:` / `key: ~`
+LookPairs(t) == {<<"kb", "bool", "strT">>, <<"ks", "strT", "bool">>, <<"ks", "str1", "int">>,
+                 <<"kb", "bool", "null">>, <<"ks", "str", "null">>}
+                \cup (IF t \in {"testify", "matryer"} THEN {}
+                      ELSE {<<"ki", "int", "str1">>, <<"ki", "int", "null">>, <<"ko", "obj", "null">>})
 PairCode(pr) == pr[1] \o "-" \o pr[2] \o "-" \o pr[3]
 FamL(tmpls) ==
   \E t \in tmpls : \E pr \in LookPairs(t), lc \in Levels, lv \in Levels, l3 \in Levels \cup {"-"} :
@@ -131,6 +134,14 @@ FamL(tmpls) ==
                       PairCode(pr) \o "." \o LevCode(lc) \o LevCode(lv) \o (IF l3 = "-" THEN "-" ELSE LevCode(l3)))
                  EXCEPT !.data = DataOf({<<lc, pr[1], pr[2]>>, <<lv, pr[1], pr[3]>>}
                                         \cup (IF l3 = "-" THEN {} ELSE {<<l3, pr[1], pr[2]>>}))])
+
+\* N: a null on its own -- for a typed key, a required key, an unknown key -- at every level, under a closed, an open
+\*    and a required-key schema (an unknown key with a null value is fine under an open schema only)
+FamN(tmpls) ==
+  \E t \in tmpls, k \in {"ks", "kb", "zz", "ki"}, lv \in Levels, ds \in {"CL", "OP", "RC"} :
+    /\ (t \in {"testify", "matryer"} => ds = "CL" /\ k # "ki")
+    /\ InitWith([Case("N", t, Loc(ds, "absent", "absent"), Unset, Unset, {}, {}, ds \o "." \o k \o "." \o LevCode(lv))
+                 EXCEPT !.data = DataOf({<<lv, k, "null">>} \cup (IF ds = "RC" /\ k # "ks" THEN {KsRoot} ELSE {}))])
 
 \* E: an output file exists already (force-file-write: true): a rejected file keeps its old bytes
 FamE(tmpls) ==
@@ -147,6 +158,7 @@ InitQuick ==
   \/ FamC({"file", "http"}, DataC)
   \/ FamD({"file"}, DataB)
   \/ FamL({"testify", "matryer", "file"})
+  \/ FamN({"testify", "matryer", "file"})
   \/ FamR({"testify"}, Reqs, Reqs, Reqs, Reqs)
   \/ FamR({"matryer"}, Reqs, {"unset"}, {"unset", "false"}, {"unset", "false"})
   \/ FamE({"testify", "file"})
@@ -157,6 +169,7 @@ InitThorough ==
   \/ FamC({"file", "http"}, DataC)
   \/ FamD({"file", "http"}, DataB)
   \/ FamL({"testify", "matryer", "file", "http"})
+  \/ FamN({"testify", "matryer", "file", "http"})
   \/ FamR({"testify", "matryer"}, Reqs, Reqs, Reqs, Reqs)
   \/ FamE({"testify", "matryer", "file", "http"})
 
